@@ -23,9 +23,15 @@ EXTENDS Expr, TLC
 StrPool == << <<>>, <<1>>, <<1, 2>>, <<1, 2, 3>>, <<1, 3>>, <<2>>, <<2, 1>>, <<3>> >>
 PCT == 100   \* %
 USC == 101   \* _
+ESC == 102   \* backslash: the next pattern character is literal
+\* the literal characters '%', '_' and backslash do not occur in the pool (codes 4, 5, 6)
+LitOf(c) == IF c = PCT THEN 4 ELSE IF c = USC THEN 5 ELSE IF c = ESC THEN 6 ELSE c
 RECURSIVE Match(_, _)
 Match(s, p) ==
   IF p = <<>> THEN s = <<>>
+  ELSE IF Head(p) = ESC THEN
+       (IF Len(p) >= 2 THEN s # <<>> /\ Head(s) = LitOf(p[2]) /\ Match(Tail(s), Tail(Tail(p)))
+        ELSE s # <<>> /\ Head(s) = 6 /\ Match(Tail(s), <<>>))
   ELSE IF Head(p) = PCT THEN Match(s, Tail(p)) \/ (s # <<>> /\ Match(Tail(s), p))
   ELSE s # <<>> /\ (Head(p) = USC \/ Head(p) = Head(s)) /\ Match(Tail(s), Tail(p))
 LikeV(x, pat, neg) ==
